@@ -25,7 +25,20 @@ var (
 	mode     = flag.String("mode", "", "internal: conc = run only the concurrent stage (child process)")
 	noRace   = flag.Bool("no-race", false, "thorough tier: do not build/run the -race twin of the concurrent stage")
 	concOnly = flag.Int("conc-rounds", 0, "override the number of concurrent rounds")
+	only     = flag.String("only", "", "developer aid: run only the named stages (comma list of fixed,exhaustive,probes,seq,overlay,pscript-exhaustive,pscript,live,concurrent); never used by ./check")
 )
+
+func want(stage string) bool {
+	if *only == "" {
+		return true
+	}
+	for _, s := range strings.Split(*only, ",") {
+		if s == stage {
+			return true
+		}
+	}
+	return false
+}
 
 func main() {
 	f := lib.ParseFlags()
@@ -48,7 +61,7 @@ func main() {
 	}
 	h := &harness{f: f, res: res, drv: drv, reported: map[string]bool{}, mu: &sync.Mutex{}}
 	if *mode == "conc" {
-		rounds := f.Scale(6, 40)
+		rounds := f.Scale(4, 40)
 		if *concOnly > 0 {
 			rounds = *concOnly
 		}
@@ -75,31 +88,50 @@ func main() {
 		res.Note("stage %s: %.1fs", name, time.Since(t0).Seconds())
 		t0 = time.Now()
 	}
-	h.fixed()
-	lap("fixed")
-	h.exhaustive(f.Scale(3, 4))
-	lap("exhaustive")
-	h.validateStage()
-	h.sequencerProbe(root.Fork(6_666_666))
-	h.fallbackProbe(root.Fork(5_555_555))
-	h.newChainProbe()
-	lap("probes")
-	nSeq := f.Scale(260, 4500)
-	h.parallel(nSeq, func(w *harness, i int) { w.seqCase(root.Fork(uint64(i)), i) })
-	lap("seq")
-	nOv := f.Scale(500, 9000)
-	h.parallel(nOv, func(w *harness, i int) { w.overlayCase(root.Fork(uint64(1_000_000+i)), i) })
-	lap("overlay")
-	h.pscriptExhaustive()
-	lap("pscript-exhaustive")
-	nPS := f.Scale(160, 2500)
-	h.parallel(nPS, func(w *harness, i int) { w.pscriptCase(root.Fork(uint64(3_000_000+i)), i) })
-	lap("pscript")
-	nLive := f.Scale(120, 2000)
-	h.parallel(nLive, func(w *harness, i int) { w.liveCase(liveRNG(f.Seed, i), i) })
-	lap("live")
-	h.concurrentChild()
-	lap("concurrent")
+	if want("fixed") {
+		h.fixed()
+		lap("fixed")
+	}
+	if want("exhaustive") {
+		h.exhaustive(f.Scale(3, 4))
+		lap("exhaustive")
+	}
+	if want("probes") {
+		h.validateStage()
+		h.sequencerProbe(root.Fork(6_666_666))
+		h.fallbackProbe(root.Fork(5_555_555))
+		h.newChainProbe()
+		h.runProbe()
+		lap("probes")
+	}
+	if want("seq") {
+		nSeq := f.Scale(260, 4500)
+		h.parallel(nSeq, func(w *harness, i int) { w.seqCase(root.Fork(uint64(i)), i) })
+		lap("seq")
+	}
+	if want("overlay") {
+		nOv := f.Scale(500, 9000)
+		h.parallel(nOv, func(w *harness, i int) { w.overlayCase(root.Fork(uint64(1_000_000+i)), i) })
+		lap("overlay")
+	}
+	if want("pscript-exhaustive") {
+		h.pscriptExhaustive()
+		lap("pscript-exhaustive")
+	}
+	if want("pscript") {
+		nPS := f.Scale(160, 2500)
+		h.parallel(nPS, func(w *harness, i int) { w.pscriptCase(root.Fork(uint64(3_000_000+i)), i) })
+		lap("pscript")
+	}
+	if want("live") {
+		nLive := f.Scale(120, 2000)
+		h.parallel(nLive, func(w *harness, i int) { w.liveCase(liveRNG(f.Seed, i), i) })
+		lap("live")
+	}
+	if want("concurrent") {
+		h.concurrentChild()
+		lap("concurrent")
+	}
 	lib.Finish(f, res)
 }
 
